@@ -26,7 +26,7 @@ MiniProto ==
        msgs |-> [data_offer |-> <<[name |-> "id", type |-> "new_id", iface |-> "wl_data_offer", eiface |-> "", ename |-> ""]>>,
                  selection |-> <<[name |-> "id", type |-> "object", iface |-> "wl_data_offer", eiface |-> "", ename |-> ""]>>]],
    wl_data_offer |-> [version |-> 3, enums |-> [none |-> [bitfield |-> FALSE, entries |-> <<>>]],
-       msgs |-> [finish |-> <<>>,
+       msgs |-> [finish |-> <<>>, destroy |-> <<>>,
                  receive |-> <<[name |-> "mime_type", type |-> "string", iface |-> "", eiface |-> "", ename |-> ""],
                                [name |-> "fd", type |-> "fd", iface |-> "", eiface |-> "", ename |-> ""]>>]]]
 
